@@ -57,6 +57,9 @@ def check_scatter(prog, rep, m):
     f = m.funcs.get('_stats_numpy')
     if f is None:
         return
+    # the scatter loop may live in a helper that is handed the permutation and the breaks: read in place
+    from ..inline import inline_view
+    f = inline_view(prog, f, keep=('_sort_and_stride', '_calc_stats', '_strides'), allow_loops=True)
     init = False
     # the permutation and the break vector: first and last component of what the sort-and-stride routine returns
     P = B = None
